@@ -76,11 +76,14 @@ def run_update_projects(rep, tier, seed, focus, model_ok=True, effort=1, legacy_
     """focus in {'stale','outside'}: which class of byte difference this property owns."""
     from . import impl
     r = common.rng(seed, "rw", focus)
-    n = (45 if tier == "quick" else 700) * effort
+    n = (45 if tier == "quick" else 700) * effort + len(rwgen.CORPUS_PATTERNS)
     items, meta = [], []
     for i in range(n):
         legacy = r.random() < legacy_share
-        spec = rwgen.gen_project(r, impl, legacy=legacy, allow_dup=(focus == "outside"))
+        force = rwgen.CORPUS_PATTERNS[i] if i < len(rwgen.CORPUS_PATTERNS) else None
+        if force:
+            legacy = False
+        spec = rwgen.gen_project(r, impl, legacy=legacy, allow_dup=(focus == "outside"), force=force, max_files=2 if force else 5)
         if not spec["old"]:
             continue
         with rwgen.to_temp_project(project, spec) as prj:
